@@ -101,11 +101,28 @@ pub fn run(r: &mut Runner) {
             afr.push(extra);
         }
     }
+    // every single set bit and every single cleared bit of the fraction field: a bit mask or shift count that is
+    // off in one position shows only on these (e.g. a power-of-two test that ignores fraction bit p); such a slip
+    // does not depend on the exponent, so these 104 fractions are taken at 16 exponents only
+    let mut bitfr: Vec<u64> = vec![];
+    for p in 0..52 {
+        bitfr.push(1u64 << p);
+        bitfr.push(((1u64 << 52) - 1) ^ (1u64 << p));
+    }
     let mut avals: Vec<f64> = Vec::new();
     for e in -1022..=1023 {
         for &f in &afr {
             for s in [false, true] {
                 avals.push(mk_f64(s, e, f).unwrap());
+            }
+        }
+        if [-1022, -1021, -969, -500, -54, -1, 0, 1, 52, 53, 54, 500, 969, 970, 1022, 1023].contains(&e) {
+            for &f in &bitfr {
+                if !afr.contains(&f) {
+                    for s in [false, true] {
+                        avals.push(mk_f64(s, e, f).unwrap());
+                    }
+                }
             }
         }
     }
@@ -156,7 +173,12 @@ pub fn run(r: &mut Runner) {
     let rel_k = if quick { 2 } else { 3 };
     let mut arel: Vec<f64> = Vec::new();
     {
-        let fr = run_bounded(52, rel_k);
+        let mut fr = run_bounded(52, rel_k);
+        for &f in &bitfr {
+            if !fr.contains(&f) {
+                fr.push(f);
+            }
+        }
         let exps: Vec<i32> = (-1022..=1023).collect();
         for &e in &exps {
             // quick: R_2 on a thinned exponent set + R_1-ish on all; thorough: R_3 on all
